@@ -127,8 +127,8 @@ def run(R):
     R.cov["configurations"] = ["%s/%s" % (v, n) for v, n, _ in cfgs]
     R.cov["corpus_calls_compared"] = total
     R.cov["corpus_functions"] = len({k[0] for k in ref})
-    R.sample(json.loads(open(files[0]).readline()))
-    R.sample(json.loads(open(traces[3][0]).read().splitlines()[1]))
+    R.sample_line(files[0], 0)
+    R.sample_line(traces[3][0], 1)
     R.assumptions += ["the mask can only remove features; instructions the host CPU lacks are never reached (host: AVX-512F, AES-NI, PCLMUL)",
                       "the reference configuration's own outputs are validated byte-exactly by the owning properties' oracles (C01-C09, C14-C16), not here",
                       "ARM/NEON, big-endian and 32-bit builds are out of reach in this sandbox"]
